@@ -101,30 +101,75 @@ func (pe *PodEvictor) TotalEvicted() int {
 
 // NodeLimitExceeded checks if the number of evictions for a node was exceeded
 func (pe *PodEvictor) NodeLimitExceeded(nodeName string) bool {
+	pe.lock.RLock()
+	defer pe.lock.RUnlock()
+	return pe.nodeLimitExceededNoLock(nodeName)
+}
+
+func (pe *PodEvictor) nodeLimitExceededNoLock(nodeName string) bool {
 	if pe.maxPodsToEvictPerNode != nil {
-		return pe.nodepodCount[nodeName] == *pe.maxPodsToEvictPerNode
+		return pe.nodepodCount[nodeName] >= *pe.maxPodsToEvictPerNode
 	}
 	return false
 }
 
 func (pe *PodEvictor) NamespaceLimitExceeded(namespace string) bool {
+	pe.lock.RLock()
+	defer pe.lock.RUnlock()
+	return pe.namespaceLimitExceededNoLock(namespace)
+}
+
+func (pe *PodEvictor) namespaceLimitExceededNoLock(namespace string) bool {
 	if pe.maxPodsToEvictPerNamespace != nil {
-		return pe.namespacePodCount[namespace] == *pe.maxPodsToEvictPerNamespace
+		return pe.namespacePodCount[namespace] >= *pe.maxPodsToEvictPerNamespace
 	}
 	return false
+}
+
+// reserveEviction checks the limits and, unless in dry run mode, counts the eviction, in one critical section,
+// so that concurrent callers can never pass the limits together. The reservation must be given back with
+// cancelEviction if the eviction fails.
+func (pe *PodEvictor) reserveEviction(pod *corev1.Pod) (nodeLimitExceeded, namespaceLimitExceeded bool) {
+	pe.lock.Lock()
+	defer pe.lock.Unlock()
+	if pe.nodeLimitExceededNoLock(pod.Spec.NodeName) {
+		return true, false
+	}
+	if pe.namespaceLimitExceededNoLock(pod.Namespace) {
+		return false, true
+	}
+	if !pe.dryRun {
+		if pod.Spec.NodeName != "" {
+			pe.nodepodCount[pod.Spec.NodeName]++
+		}
+		pe.namespacePodCount[pod.Namespace]++
+		pe.totalCount++
+	}
+	return false, false
+}
+
+func (pe *PodEvictor) cancelEviction(pod *corev1.Pod) {
+	pe.lock.Lock()
+	defer pe.lock.Unlock()
+	if pod.Spec.NodeName != "" {
+		pe.nodepodCount[pod.Spec.NodeName]--
+	}
+	pe.namespacePodCount[pod.Namespace]--
+	pe.totalCount--
 }
 
 func (pe *PodEvictor) Evict(ctx context.Context, pod *corev1.Pod, opts framework.EvictOptions) bool {
 	framework.FillEvictOptionsFromContext(ctx, &opts)
 
 	nodeName := pod.Spec.NodeName
-	if pe.NodeLimitExceeded(nodeName) {
+	nodeLimitExceeded, namespaceLimitExceeded := pe.reserveEviction(pod)
+	if nodeLimitExceeded {
 		metrics.PodsEvicted.With(map[string]string{"result": "maximum number of pods per node reached", "strategy": opts.PluginName, "namespace": pod.Namespace, "node": nodeName}).Inc()
 		klog.ErrorS(fmt.Errorf("maximum number of evicted pods per node reached"), "Error evicting pod", "limit", *pe.maxPodsToEvictPerNode, "node", nodeName)
 		return false
 	}
 
-	if pe.NamespaceLimitExceeded(pod.Namespace) {
+	if namespaceLimitExceeded {
 		metrics.PodsEvicted.With(map[string]string{"result": "maximum number of pods per namespace reached", "strategy": opts.PluginName, "namespace": pod.Namespace, "node": nodeName}).Inc()
 		klog.ErrorS(fmt.Errorf("maximum number of evicted pods per namespace reached"), "Error evicting pod", "limit", *pe.maxPodsToEvictPerNamespace, "namespace", pod.Namespace)
 		return false
@@ -135,21 +180,12 @@ func (pe *PodEvictor) Evict(ctx context.Context, pod *corev1.Pod, opts framework
 	} else {
 		err := EvictPod(ctx, pe.client, pod, pe.policyGroupVersion, opts.DeleteOptions)
 		if err != nil {
+			pe.cancelEviction(pod)
 			// err is used only for logging purposes
 			klog.ErrorS(err, "Error evicting pod", "pod", klog.KObj(pod), "reason", opts.Reason)
 			metrics.PodsEvicted.With(map[string]string{"result": "error", "strategy": opts.PluginName, "namespace": pod.Namespace, "node": nodeName}).Inc()
 			return false
 		}
-
-		func() {
-			pe.lock.Lock()
-			defer pe.lock.Unlock()
-			if pod.Spec.NodeName != "" {
-				pe.nodepodCount[pod.Spec.NodeName]++
-			}
-			pe.namespacePodCount[pod.Namespace]++
-			pe.totalCount++
-		}()
 
 		metrics.PodsEvicted.With(map[string]string{"result": "success", "strategy": opts.PluginName, "namespace": pod.Namespace, "node": nodeName}).Inc()
 
